@@ -4,8 +4,8 @@ C19 — model of the ant-colony components in `src/components/generative.rs`
 `src/heuristics/aco.rs` (generation → evaluation → pheromone update).
 
 Code-shaped: the matrix is a flat row-major `Vec` with a dimension and Rust's index assertions;
-tours are built by repeatedly `remove`-ing an index from `remaining`; panics (`unwrap` on an empty
-iterator, `WeightedIndex::new(..).unwrap()` on illegal weights, slice indexing) are explicit outcomes.
+tours are built by repeatedly `remove`-ing an index from `remaining`; panics (`WeightedIndex::new(..).unwrap()`
+on illegal weights, `objective()` of an unevaluated individual, slice indexing) are explicit outcomes.
 Generic over the numeric carrier `F` (core classes only): the driver instantiates `Float`, the theorems an
 ordered field.  `rand` is not modelled: a sampled tour is a function of a witness (for every step the index
 chosen from `remaining`).
@@ -233,7 +233,7 @@ def firstMinGo : Ind F → F → List (Ind F) → Option (Ind F × F)
     | none => none
     | some v => if v < bv then firstMinGo x v xs else firstMinGo bi bv xs
 
-/-- `none` = panic (`unwrap` on an empty iterator, or an unevaluated individual). -/
+/-- `none` = the iterator is empty, or (panic) an individual is not evaluated. -/
 def firstMin : List (Ind F) → Option (Ind F × F)
   | [] => none
   | x :: xs =>
@@ -244,17 +244,22 @@ def firstMin : List (Ind F) → Option (Ind F × F)
 /-- `f64::clamp`: `assert!(min <= max)`, `if x < min {min} else if x > max {max} else x`. -/
 def clamp (lo hi x : F) : F := if x < lo then lo else if hi < x then hi else x
 
-/-- `MinMaxPheromoneUpdate::execute` (`none` = panic). -/
+/-- `MinMaxPheromoneUpdate::execute` (`none` = panic): evaporate; `if let Some(best) = iter.skip(1).min_by_key(..)`
+reinforce the edges of `best`; clamp the whole matrix. With no sampled individual nothing is reinforced. -/
 def mmasUpdate (pm : PM F) (ρ hi lo : F) (pop : List (Ind F)) : Option (PM F) :=
   let pm1 := pm.scale (1 - ρ)
-  match firstMin (pop.drop 1) with
+  let rewarded : Option (PM F) :=
+    match pop.drop 1 with
+    | [] => some pm1
+    | x :: xs =>
+      match firstMin (x :: xs) with
+      | none => none
+      | some (ind, o) => reward pm1 (1 / o) (edges ind.route)
+  match rewarded with
   | none => none
-  | some (ind, o) =>
-    match reward pm1 (1 / o) (edges ind.route) with
-    | none => none
-    | some pm2 =>
-      if lo ≤ hi then some { pm2 with inner := pm2.inner.map (clamp lo hi) }
-      else if pm2.inner.isEmpty then some pm2 else none
+  | some pm2 =>
+    if lo ≤ hi then some { pm2 with inner := pm2.inner.map (clamp lo hi) }
+    else if pm2.inner.isEmpty then some pm2 else none
 
 /-! ### Specifications (entry by entry) and executable property predicates -/
 
@@ -281,10 +286,11 @@ def asSpecGo (c : F) (i j : Nat) : List (Ind F) → F → F
 def asSpec (pm : PM F) (ρ c : F) (pop : List (Ind F)) (i j : Nat) : F :=
   asSpecGo c i j (pop.drop 1) (pm.getD i j 0 * (1 - ρ))
 
-/-- Max-min entry: evaporate, the best of the individuals but the first deposits `1 / objective`, clamp. -/
+/-- Max-min entry: evaporate, the best of the individuals but the first (if there is one) deposits
+`1 / objective`, clamp. -/
 def mmasSpec (pm : PM F) (ρ hi lo : F) (pop : List (Ind F)) (i j : Nat) : F :=
   match firstMin (pop.drop 1) with
-  | none => pm.getD i j 0
+  | none => clamp lo hi (pm.getD i j 0 * (1 - ρ))
   | some (ind, o) => clamp lo hi (depositEdges (1 / o) i j (edges ind.route) (pm.getD i j 0 * (1 - ρ)))
 
 /-- A route is a permutation of `0..n` that starts at city 0. -/
